@@ -8,6 +8,7 @@ mod common;
 mod blocks;
 mod bytes;
 mod conc;
+mod crash;
 mod drip;
 mod fsink;
 mod graphs;
@@ -25,6 +26,7 @@ fn main() {
         Some("ring") => ring::run(&args),
         Some("blocks") => blocks::run(&args),
         Some("sched") => sched::run(&args),
+        Some("crash") => crash::run(&args),
         Some("bytes") => bytes::run(&args),
         Some("vm") => vm::run(&args),
         Some("vmtrace") => {
